@@ -2,6 +2,6 @@
    Only ExtrOcamlBasic is used: Z, positive and nat stay the extracted inductives. *)
 From Coq Require Extraction.
 From Coq Require Import ExtrOcamlBasic.
-From DV Require Import Prelude Cost Grid Dtw DtwSpec.
+From DV Require Import Prelude Cost Grid Dtw DtwSpec Bounds.
 Extraction Language OCaml.
-Extraction "model.ml" dtw_model wps_matrix.
+Extraction "model.ml" dtw_model wps_matrix ed_model lb_keogh_model.
